@@ -338,6 +338,78 @@ def rule_r9(ctx):
         raise AnalysisBroken("only %d terminal completions of listed operations found in the transports" % n)
 
 
+def rule_r10(ctx):
+    r = ctx.rule("C14.R10", "T3", "one pipe per dialer: the `started` latch that makes a second nng_dialer_start fail with NNG_ESTATE is "
+                 "released only on paths that do not keep the dialer dialling -- no path contains both "
+                 "nni_atomic_flag_reset(&d->d_started) and a (re)start of the connect (dialer_connect_start / "
+                 "nni_dialer_timer_start); with the latch open while the redial timer runs, a second start connects as well and "
+                 "the dialer owns two pipes", floor=2)
+    prog = ctx.prog
+    n = 0
+    for f in prog.fns_in("core/dialer.c", "core/socket.c"):
+        if f.cfg_failed:
+            continue
+        resets = [c for c in f.calls("nni_atomic_flag_reset") if c.node["args"] and (last_field(f.expand(c.node["args"][0])) or "").endswith(".d_started")]
+        if not resets:
+            continue
+        going = [c for c in f.calls(("dialer_connect_start", "nni_dialer_timer_start", "dialer_timer_start_locked"))]
+        gpos = {(c.b, c.i) for c in going}
+        for c in resets:
+            n += 1
+            after = f.reach((c.b, c.i + 1))
+            before = any((c.b, c.i) in f.reach((g.b, g.i + 1)) for g in going)
+            hit = [g for g in going if (g.b, g.i) in after]
+            if hit or before:
+                g = hit[0] if hit else [g for g in going if (c.b, c.i) in f.reach((g.b, g.i + 1))][0]
+                ctx.fail(r, f, "started latch released while %s keeps the dialer going" % g.node["fn"], c.line,
+                         "%s releases d_started at line %s on a path that also calls %s (line %s): the dialer goes on dialling "
+                         "in the background, and a second nng_dialer_start is accepted and dials too -- two pipes on one dialer"
+                         % (f.name, c.line, g.node["fn"], g.line))
+            else:
+                r.ob(f, "d_started released at line %s: nothing keeps dialling on that path" % c.line)
+    if n < 2:
+        raise AnalysisBroken("only %d releases of the dialer's started latch found" % n)
+
+
+def rule_r11(ctx):
+    r = ctx.rule("C14.R11", "T3", "a new minimum reconnect time takes effect at once: a function that stores the dialer's initial redial "
+                 "interval (d_inirtime, NNG_OPT_RECONNMINT) also re-seeds the current back-off interval (d_currtime) from it on "
+                 "the path on which the store succeeded -- otherwise redials keep the old, longer back-off for as long as the "
+                 "peer stays away, beyond the configured reconnect times", floor=1)
+    prog = ctx.prog
+    n = 0
+    for f in prog.fns_in("core/dialer.c", "core/socket.c"):
+        if f.cfg_failed or f.name.endswith(("_init", "_create", "_create_url")):
+            continue
+        stores = []
+        for c in f.calls():
+            if (c.node.get("fn") or "").startswith("nni_copyin_") and c.node["args"]:
+                a = f.expand(c.node["args"][0])
+                if a is not None and a.get("k") == "un" and a.get("op") == "&" and a["e"].get("k") == "mem" and a["e"].get("f") == "d_inirtime":
+                    stores.append(c)
+        for t in f.assigns():
+            if t.node["lhs"].get("k") == "mem" and t.node["lhs"].get("f") == "d_inirtime":
+                stores.append(t)
+        if not stores:
+            continue
+        seeds = {(t.b, t.i) for t in f.assigns() if t.node["lhs"].get("k") == "mem" and t.node["lhs"].get("f") == "d_currtime" and
+                 (lambda e: e is not None and e.get("k") == "mem" and e.get("f") == "d_inirtime")(f.expand(t.node["rhs"]))}
+        for c in stores:
+            n += 1
+            ok = False
+            ve = f.value_edges(c) if c.node.get("k") == "call" else None
+            starts = [(f.blocks[b].succs[z], 0) for b, (nz, z) in ve.items() if f.blocks[b].succs[z] is not None] if ve else [(c.b, c.i + 1)]
+            ok = bool(seeds) and all((f.exit, 0) not in f.reach(st, blocked=lambda b, i, e: (b, i) in seeds) for st in starts)
+            if ok:
+                r.ob(f, "d_inirtime stored at line %s: d_currtime re-seeded on the success path" % c.line)
+            else:
+                ctx.fail(r, f, "d_inirtime stored without re-seeding d_currtime", c.line,
+                         "%s stores a new initial redial interval at line %s and can return successfully without d_currtime = "
+                         "d_inirtime: a dialer that has backed off keeps drawing its delays from the old range" % (f.name, c.line))
+    if n < 1:
+        raise AnalysisBroken("no store of d_inirtime outside the constructors found")
+
+
 def run(ctx):
     ctx.guard(rule_r1)
     ctx.guard(rule_r2)
@@ -349,3 +421,5 @@ def run(ctx):
         if rr.id == "C11.R4":
             rr.id = "C14.R6"
     ctx.guard(rule_r9)
+    ctx.guard(rule_r10)
+    ctx.guard(rule_r11)
